@@ -4,6 +4,7 @@ package c10
 import (
 	"bytes"
 	"encoding/json"
+	"errors"
 	"fmt"
 	"math"
 	"os"
@@ -41,7 +42,8 @@ type Val struct {
 //	tok     tokenize V as Type in context Ctx, Mode c(onsistent)|r(andom), through Via lib|sql|tr
 //	detok   detokenize, Ref<0: the literal V; Ref>=0: the (Ref mod n)-th token issued so far in the
 //	        history (its type; its own context when Own, else Ctx)
-//	maint   Act disable|enable|remove-all|remove-disabled, Lim = optional acra-tokens date limit flag
+//	maint   Act disable|enable|remove-all|remove-disabled, Lim = optional acra-tokens date limit flag;
+//	        Cli (BoltDB only): through the real acra-tokens subcommand instead of its visitor body
 //	status  count records like `acra-tokens status`
 //	reopen  close and reopen the BoltDB file
 //	batch   Calls (tok in consistent mode / detok) released together from one goroutine each
@@ -56,6 +58,7 @@ type Op struct {
 	Own   bool   `json:"own,omitempty"`
 	Act   string `json:"act,omitempty"`
 	Lim   string `json:"lim,omitempty"`
+	Cli   bool   `json:"cli,omitempty"`
 	Calls []Op   `json:"calls,omitempty"`
 }
 
@@ -128,8 +131,13 @@ func genBytes(t *rapid.T, label string) gen.Hex {
 	}
 }
 
-func genSeed(t *rapid.T, label string) seed {
+func genSeed(t *rapid.T, label string, emailBias bool) seed {
 	s := seed{B: genBytes(t, label)}
+	if emailBias && rapid.Bool().Draw(t, label+".eb") {
+		l := rapid.SliceOfN(rapid.SampledFrom([]byte("abcxyz019._-")), 1, 10).Draw(t, label+".el")
+		d := rapid.SliceOfN(rapid.SampledFrom([]byte("abcxyz019-")), 1, 8).Draw(t, label+".ed")
+		s.B = gen.Hex(string(l) + "@" + string(d) + rapid.SampledFrom(tlds).Draw(t, label+".et"))
+	}
 	if rapid.IntRange(0, 9).Draw(t, label+".ib") < 7 {
 		s.I32 = rapid.SampledFrom(int32Bound).Draw(t, label+".i32")
 		s.I64 = rapid.SampledFrom(int64Bound).Draw(t, label+".i64")
@@ -171,106 +179,113 @@ var (
 func genCase(t *rapid.T, p profile) Case {
 	c := Case{Store: rapid.SampledFrom(p.stores).Draw(t, "store"), Enc: rapid.Bool().Draw(t, "enc")}
 	nctx := rapid.IntRange(2, 4).Draw(t, "nctx")
-	pool := make([]seed, rapid.IntRange(2, 5).Draw(t, "npool"))
-	for i := range pool {
-		pool[i] = genSeed(t, fmt.Sprintf("pool%d", i))
-	}
 	// a case concentrates on one or two types and one context so that values meet
 	focusT := []string{rapid.SampledFrom(typeNames).Draw(t, "focus1"), rapid.SampledFrom(typeNames).Draw(t, "focus2")}
+	emailBias := focusT[0] == "email" || focusT[1] == "email"
+	pool := make([]seed, rapid.IntRange(2, 5).Draw(t, "npool"))
+	for i := range pool {
+		pool[i] = genSeed(t, fmt.Sprintf("pool%d", i), emailBias)
+	}
 	focusC := rapid.IntRange(0, nctx-1).Draw(t, "focusctx")
+	cur := t // the rapid.T the helper closures draw from (switched inside the element generators)
 	pickType := func(l string) string {
-		if rapid.IntRange(0, 9).Draw(t, l+".tf") < 8 {
-			return rapid.SampledFrom(focusT).Draw(t, l+".type")
+		if rapid.IntRange(0, 9).Draw(cur, l+".tf") < 8 {
+			return rapid.SampledFrom(focusT).Draw(cur, l+".type")
 		}
-		return rapid.SampledFrom(typeNames).Draw(t, l+".anytype")
+		return rapid.SampledFrom(typeNames).Draw(cur, l+".anytype")
 	}
 	pickCtx := func(l string) int {
-		if rapid.IntRange(0, 9).Draw(t, l+".cf") < 7 {
+		if rapid.IntRange(0, 9).Draw(cur, l+".cf") < 7 {
 			return focusC
 		}
-		return rapid.IntRange(0, nctx-1).Draw(t, l+".ctx")
+		return rapid.IntRange(0, nctx-1).Draw(cur, l+".ctx")
 	}
 	pickVal := func(l, typ string) Val {
-		if rapid.IntRange(0, 9).Draw(t, l+".vp") < 8 {
-			return rapid.SampledFrom(pool).Draw(t, l+".seed").val(typ)
+		if rapid.IntRange(0, 9).Draw(cur, l+".vp") < 8 {
+			return rapid.SampledFrom(pool).Draw(cur, l+".seed").val(typ)
 		}
-		return genSeed(t, l+".fresh").val(typ)
+		return genSeed(cur, l+".fresh", typ == "email").val(typ)
 	}
 	pickVia := func(l string, ctx int) string {
 		if ctx == zoneCtx {
 			return "lib"
 		}
-		return rapid.SampledFrom(p.vias).Draw(t, l+".via")
+		return rapid.SampledFrom(p.vias).Draw(cur, l+".via")
 	}
 	tokOp := func(l string, batch bool) Op {
 		o := Op{Op: "tok", Ctx: pickCtx(l), Type: pickType(l), Mode: "c"}
 		o.Via = pickVia(l, o.Ctx)
 		o.V = pickVal(l, o.Type)
-		if !batch && o.Via != "tr" && rapid.IntRange(0, 9).Draw(t, l+".mode") < 4 {
+		if !batch && o.Via != "tr" && rapid.IntRange(0, 9).Draw(cur, l+".mode") < 4 {
 			o.Mode = "r"
 		}
 		return o
 	}
 	detokOp := func(l string) Op {
 		o := Op{Op: "detok", Ctx: pickCtx(l), Ref: -1}
-		switch rapid.IntRange(0, 9).Draw(t, l+".src") {
+		switch rapid.IntRange(0, 9).Draw(cur, l+".src") {
 		case 0, 1: // a literal value (usually one that was tokenized: originals must come back unchanged)
 			o.Type = pickType(l)
 			o.V = pickVal(l, o.Type)
 		case 2, 3: // an issued token presented in a chosen (usually foreign) context
-			o.Ref = rapid.IntRange(0, 40).Draw(t, l+".ref")
+			o.Ref = rapid.IntRange(0, 40).Draw(cur, l+".ref")
 		default: // an issued token presented by its owner
-			o.Ref = rapid.IntRange(0, 40).Draw(t, l+".ref")
+			o.Ref = rapid.IntRange(0, 40).Draw(cur, l+".ref")
 			o.Own = true
 		}
 		o.Via = pickVia(l, o.Ctx)
 		return o
 	}
-	n := rapid.IntRange(1, p.maxOps).Draw(t, "nops")
-	for i := 0; i < n; i++ {
-		l := fmt.Sprintf("op%d", i)
-		kind := rapid.SampledFrom(p.kinds).Draw(t, l+".kind")
+	callGen := func(typ string, ctx int, v1, v2 Val) *rapid.Generator[Op] {
+		return rapid.Custom(func(it *rapid.T) Op {
+			prev := cur
+			cur = it
+			defer func() { cur = prev }()
+			if rapid.IntRange(0, 9).Draw(cur, "k") >= 8 {
+				return detokOp("d")
+			}
+			o := Op{Op: "tok", Ctx: ctx, Type: typ, Mode: "c", V: v1}
+			if rapid.IntRange(0, 9).Draw(cur, "which") < 3 {
+				o.V = v2
+			}
+			if rapid.IntRange(0, 9).Draw(cur, "stray") == 0 {
+				o = tokOp("s", true)
+			}
+			o.Via = pickVia("c", o.Ctx)
+			return o
+		})
+	}
+	opGen := rapid.Custom(func(it *rapid.T) Op {
+		prev := cur
+		cur = it
+		defer func() { cur = prev }()
+		l := "o"
+		kind := rapid.SampledFrom(p.kinds).Draw(cur, "kind")
 		if kind == "reopen" && c.Store != "bolt" {
 			kind = "detok"
 		}
 		switch kind {
 		case "tok":
-			c.Ops = append(c.Ops, tokOp(l, false))
-		case "detok":
-			c.Ops = append(c.Ops, detokOp(l))
+			return tokOp(l, false)
 		case "maint":
-			c.Ops = append(c.Ops, Op{Op: "maint",
-				Act: rapid.SampledFrom([]string{"disable", "disable", "enable", "enable", "remove-all", "remove-disabled", "remove-disabled"}).Draw(t, l+".act"),
-				Lim: rapid.SampledFrom([]string{"", "", "", "", "created_after", "accessed_after", "created_before", "accessed_before"}).Draw(t, l+".lim")})
+			return Op{Op: "maint",
+				Act: rapid.SampledFrom([]string{"disable", "disable", "enable", "enable", "remove-all", "remove-disabled", "remove-disabled"}).Draw(cur, "act"),
+				Lim: rapid.SampledFrom([]string{"", "", "", "", "created_after", "accessed_after", "created_before", "accessed_before"}).Draw(cur, "lim"),
+				Cli: c.Store == "bolt" && rapid.IntRange(0, 9).Draw(cur, "cli") < 4}
 		case "status":
-			c.Ops = append(c.Ops, Op{Op: "status", Lim: rapid.SampledFrom([]string{"", "", "created_after", "accessed_before"}).Draw(t, l+".lim")})
+			return Op{Op: "status", Lim: rapid.SampledFrom([]string{"", "", "created_after", "accessed_before"}).Draw(cur, "lim")}
 		case "reopen":
-			c.Ops = append(c.Ops, Op{Op: "reopen"})
+			return Op{Op: "reopen"}
 		case "batch":
-			b := Op{Op: "batch"}
-			k := rapid.IntRange(2, 8).Draw(t, l+".k")
 			// overlapping values: the calls of a batch share one type, context and a pair of values
 			typ, ctx := pickType(l), pickCtx(l)
-			v1, v2 := pickVal(l+".v1", typ), pickVal(l+".v2", typ)
-			for j := 0; j < k; j++ {
-				lj := fmt.Sprintf("%s.c%d", l, j)
-				if rapid.IntRange(0, 9).Draw(t, lj+".k") < 8 {
-					o := Op{Op: "tok", Ctx: ctx, Type: typ, Mode: "c", V: v1}
-					if rapid.IntRange(0, 9).Draw(t, lj+".which") < 3 {
-						o.V = v2
-					}
-					if rapid.IntRange(0, 9).Draw(t, lj+".stray") == 0 {
-						o = tokOp(lj, true)
-					}
-					o.Via = pickVia(lj, o.Ctx)
-					b.Calls = append(b.Calls, o)
-				} else {
-					b.Calls = append(b.Calls, detokOp(lj))
-				}
-			}
-			c.Ops = append(c.Ops, b)
+			v1, v2 := pickVal("v1", typ), pickVal("v2", typ)
+			return Op{Op: "batch", Calls: rapid.SliceOfN(callGen(typ, ctx, v1, v2), 2, 8).Draw(cur, "calls")}
 		}
-	}
+		return detokOp(l)
+	})
+	minOps := rapid.IntRange(1, min(8, p.maxOps)).Draw(t, "minops")
+	c.Ops = rapid.SliceOfN(opGen, minOps, p.maxOps).Draw(t, "ops")
 	return c
 }
 
@@ -291,6 +306,7 @@ type space struct {
 	fwd     map[string]*rec // consistent-mode record: value -> token
 	rev     map[string]*rec // token record: token -> value
 	orphans map[string]bool // values for which token records unknown to the model may exist (failed / lost-race calls)
+	removed map[string]bool // tokens whose record was removed by maintenance (evidence only)
 }
 
 type issued struct {
@@ -316,7 +332,7 @@ func (m *model) space(ctx int, typ string) *space {
 	k := spaceKey{ctx, typ}
 	s := m.spaces[k]
 	if s == nil {
-		s = &space{fwd: map[string]*rec{}, rev: map[string]*rec{}, orphans: map[string]bool{}}
+		s = &space{fwd: map[string]*rec{}, rev: map[string]*rec{}, orphans: map[string]bool{}, removed: map[string]bool{}}
 		m.spaces[k] = s
 	}
 	return s
@@ -342,18 +358,19 @@ func (m *model) counts() (total, disabled int) {
 
 func (m *model) maintain(act string) {
 	for _, s := range m.spaces {
-		for _, recs := range []map[string]*rec{s.fwd, s.rev} {
+		for i, recs := range []map[string]*rec{s.fwd, s.rev} {
 			for k, r := range recs {
 				switch act {
 				case "disable":
 					r.disabled = true
 				case "enable":
 					r.disabled = false
-				case "remove-all":
-					delete(recs, k)
-				case "remove-disabled":
-					if r.disabled {
+				case "remove-all", "remove-disabled":
+					if act == "remove-all" || r.disabled {
 						delete(recs, k)
+						if i == 1 {
+							s.removed[k] = true
+						}
 					}
 				}
 			}
@@ -659,7 +676,11 @@ func (r *runner) judgeDetok(v string, ctx int, typ string, x Val, res result, ex
 		}
 	default:
 		if got == key(typ, x) {
-			r.class("detok:unknown-unchanged")
+			if sp.removed[got] {
+				r.class("detok:removed-unchanged")
+			} else {
+				r.class("detok:unknown-unchanged")
+			}
 			return
 		}
 		if sp.orphans[got] || extra[got] {
@@ -692,12 +713,31 @@ func (r *runner) opDetok(o Op) {
 }
 
 func (r *runner) opMaint(o Op) {
+	cli := o.Cli && r.c.Store == "bolt"
+	what := "acra-tokens." + o.Act
+	if cli {
+		what = "acra-tokens-cli." + o.Act
+		if R.IsKnown("maintenance-effect:" + what) {
+			cli, what = false, "acra-tokens."+o.Act // known defect of the tool: keep searching behind it
+		}
+	}
 	var err error
-	if hx.Guard(&r.vs, "acra-tokens."+o.Act, func() { err = r.s.maintain(o.Act, o.Lim) }) {
+	if hx.Guard(&r.vs, what, func() {
+		if cli {
+			err = r.s.cliMaintain(o.Act, o.Lim)
+		} else {
+			err = r.s.maintain(o.Act, o.Lim)
+		}
+	}) {
+		return
+	}
+	if errors.Is(err, errInconclusive) {
+		R.Note("%v", err)
+		r.vs.Add("harness:inconclusive", "%v", err)
 		return
 	}
 	if err != nil {
-		r.vs.Add("maintenance-error:"+o.Act, "%s (limit %q) failed: %v", o.Act, o.Lim, err)
+		r.vs.Add("maintenance-error:"+what, "%s (limit %q) failed: %v", o.Act, o.Lim, err)
 		return
 	}
 	if limitMatches(o.Lim) {
@@ -705,6 +745,18 @@ func (r *runner) opMaint(o Op) {
 		r.class("maint:applied")
 	} else {
 		r.class("maint:none-selected")
+	}
+	if cli {
+		r.class("maint:cli")
+	}
+	// the effect on the population of records, observed like `acra-tokens status`
+	var total, disabled int
+	if hx.Guard(&r.vs, "acra-tokens.status", func() { total, disabled, err = r.s.status("") }) {
+		return
+	}
+	wt, wd := r.m.counts()
+	if err != nil || total < wt || total > wt+r.m.orphanMax || disabled < wd || disabled > wd+r.m.orphanMax {
+		r.vs.Add("maintenance-effect:"+what, "after %s (limit %q) the store holds %d records, %d disabled (%v); expected %d and %d (at most %d more from failed calls)", o.Act, o.Lim, total, disabled, err, wt, wd, r.m.orphanMax)
 	}
 }
 
@@ -1127,7 +1179,7 @@ func TestConcurrent(t *testing.T) {
 	R.Rule("TestConcurrent", "histories made mostly of concurrent batches (2-8 consistent tokenize / detokenize calls on one or two values of one type and context, one goroutine each, released together); built with -race, a report of the race detector during a case is a violation of that case; non-trivial = a batch with a repeated value")
 	w := startRaceWatch()
 	defer w.stop()
-	hx.Checks(100, 1500)
+	hx.Checks(150, 1500)
 	rapid.Check(t, func(rt *rapid.T) {
 		c := genCase(rt, profConcurrent)
 		vs, dyn := Check(c)
